@@ -143,20 +143,22 @@ Section Iso.
   Qed.
 
   (* renamed and permuted operation lists give isomorphic results *)
-  Theorem ops_perm_iso g eops aops g1 g2 eops' aops' :
-    giso g g -> edges_sorted g -> apply_edges eops g = Some g1 -> apply_attrs aops g1 = Some g2 ->
+  Theorem ops_perm_iso g g' eops aops g1 g2 eops' aops' :
+    giso g g' -> edges_sorted g' -> apply_edges eops g = Some g1 -> apply_attrs aops g1 = Some g2 ->
     Permutation (map (ere r) eops) eops' -> Permutation (map (are r) aops) aops' ->
-    exists g1' g2', apply_edges eops' g = Some g1' /\ apply_attrs aops' g1' = Some g2' /\ graph_iso g2 g2'.
+    exists g1' g2', apply_edges eops' g' = Some g1' /\ apply_attrs aops' g1' = Some g2' /\ graph_iso g2 g2'.
   Proof.
     intros HI W He Ha Pe Pa. destruct (apply_edges_iso _ _ _ _ HI He) as (h1 & He' & HI1). destruct (apply_attrs_iso _ _ _ _ HI1 Ha) as (h2 & Ha' & HI2).
-    destruct (deferred_ops_any_order_lemma _ _ _ _ g h1 h2 Pe Pa W He' Ha') as (h2' & He2 & Ha2 & Hq).
+    destruct (deferred_ops_any_order_lemma _ _ _ _ g' h1 h2 Pe Pa W He' Ha') as (h2' & He2 & Ha2 & Hq).
     exists h1, h2'. split; [exact He2|]. split; [exact Ha2|]. eapply giso_geq; eauto.
   Qed.
 End Iso.
 
 (* ================= the renumbering induced by a permutation of blocks ================= *)
 (* the graph operations of one block, in the block's canonical numbering: its o_n own nodes are n0, n0+1, ... *)
-Record oseg := { o_n : N; o_e : list (N * N); o_a : list aop }.
+Record oseg := { o_nodes : list gnode; o_e : list (N * N); o_a : list aop }.
+Definition o_n (o : oseg) : N := N.of_nat (length (o_nodes o)).
+Definition layN (os : list oseg) : list gnode := concat (map o_nodes os).
 Definition eall (D : N -> Prop) (e : N * N) : Prop := D (fst e) /\ D (snd e).
 Definition aall (D : N -> Prop) (o : aop) : Prop :=
   match o with AN n _ v => D n /\ vall D v | AE a b _ v => D a /\ D b /\ vall D v end.
@@ -244,12 +246,13 @@ Section Ops.
     exists r r', (forall i, r' (r i) = i) /\ (forall i, r (r' i) = i) /\
       (forall i, i < g \/ g + total os <= i -> r i = i /\ r' i = i) /\
       (forall i, g <= i -> i < g + total os -> (g <= r i /\ r i < g + total os) /\ (g <= r' i /\ r' i < g + total os)) /\
-      Permutation (map (ere r) (layE n0 g os)) (layE n0 g os') /\ Permutation (map (are r) (layA n0 g os)) (layA n0 g os').
+      Permutation (map (ere r) (layE n0 g os)) (layE n0 g os') /\ Permutation (map (are r) (layA n0 g os)) (layA n0 g os') /\
+      (forall j nd, nth_error (layN os) j = Some nd -> nth_error (layN os') (N.to_nat (r (g + N.of_nat j) - g)) = Some nd).
   Proof.
     induction 1 as [|x l l' HP IH|x y l|l1 l2 l3 HP1 IH1 HP2 IH2]; intros Hok g Hg.
-    - exists (fun i => i), (fun i => i). cbn [layE layA map]. repeat split; auto; lia.
-    - inversion Hok as [|? ? Hx Hl]; subst. destruct (IH Hl (g + o_n x) ltac:(lia)) as (r & r' & I1 & I2 & Fx & Rg & PE & PA).
-      exists r, r'. split; [exact I1|]. split; [exact I2|]. cbn [total fold_right]. fold (total l). split; [|split; [|split]].
+    - exists (fun i => i), (fun i => i). cbn [layE layA map]. repeat split; auto; try lia. intros j nd E. destruct j; discriminate.
+    - inversion Hok as [|? ? Hx Hl]; subst. destruct (IH Hl (g + o_n x) ltac:(lia)) as (r & r' & I1 & I2 & Fx & Rg & PE & PA & PN).
+      exists r, r'. split; [exact I1|]. split; [exact I2|]. cbn [total fold_right]. fold (total l). split; [|split; [|split; [|split]]].
       + intros i Hi. apply Fx. lia.
       + intros i H1 H2. destruct (N.lt_ge_cases i (g + o_n x)) as [Hlt|Hge].
         * destruct (Fx i (or_introl Hlt)) as [-> ->]. lia.
@@ -260,9 +263,18 @@ Section Ops.
       + cbn [layA]. rewrite map_app. rewrite (map_are_fix (dom n0 g (o_n x)) r _ (placed_A x g Hg Hx)).
         * apply Permutation_app_head, PA.
         * intros i Hi. apply Fx. unfold dom in Hi. lia.
+      + intros j nd E. unfold layN in *. cbn [map concat] in *. destruct (Nat.lt_ge_cases j (length (o_nodes x))) as [Hlt|Hge].
+        * rewrite nth_error_app1 in E by exact Hlt. destruct (Fx (g + N.of_nat j) ltac:(unfold o_n; lia)) as [-> _].
+          replace (N.to_nat (g + N.of_nat j - g)) with j by lia. rewrite nth_error_app1 by exact Hlt. exact E.
+        * rewrite nth_error_app2 in E by exact Hge. specialize (PN _ _ E). assert (Hj : (j - length (o_nodes x) < length (concat (map o_nodes l)))%nat) by (apply nth_error_Some; congruence).
+          assert (Hlen : N.of_nat (length (concat (map o_nodes l))) = total l).
+          { clear. induction l as [|o l IH]; [reflexivity|]. cbn [map concat total fold_right]. rewrite app_length. fold (total l). unfold o_n. lia. }
+          replace (g + o_n x + N.of_nat (j - length (o_nodes x))) with (g + N.of_nat j) in PN by (unfold o_n; lia).
+          destruct (Rg (g + N.of_nat j) ltac:(unfold o_n; lia) ltac:(unfold o_n; lia)) as [[A B] _].
+          rewrite nth_error_app2 by (unfold o_n in A; lia). replace (N.to_nat (r (g + N.of_nat j) - g)%N - length (o_nodes x))%nat with (N.to_nat (r (g + N.of_nat j) - (g + o_n x))) by (unfold o_n in *; lia). exact PN.
     - inversion Hok as [|? ? Hy Hl0]; subst. inversion Hl0 as [|? ? Hx Hl]; subst.
       exists (swp g (o_n y) (o_n x)), (swp g (o_n x) (o_n y)). split; [apply swp_inv|]. split; [apply swp_inv|].
-      cbn [total fold_right]. fold (total l). split; [|split; [|split]].
+      cbn [total fold_right]. fold (total l). split; [|split; [|split; [|split]]].
       + intros i Hi. unfold swp. repeat match goal with |- context [N.ltb ?a ?b] => destruct (N.ltb_spec a b) end; lia.
       + intros i H1 H2. unfold swp. repeat match goal with |- context [N.ltb ?a ?b] => destruct (N.ltb_spec a b) end; lia.
       + cbn [layE]. rewrite !map_app.
@@ -287,11 +299,23 @@ Section Ops.
         { replace (g + o_n x + o_n y) with (g + o_n y + o_n x) by lia. apply (map_are_fix (dom n0 (g + o_n y + o_n x) (total l))); [apply layA_dom; [lia|exact Hl]|].
           intros i Hi. unfold dom in Hi. unfold swp. repeat match goal with |- context [N.ltb ?a ?b] => destruct (N.ltb_spec a b) end; lia. }
         rewrite E1, E2, E3. apply Permutation_app_swap_app.
+      + intros j nd E. unfold layN in *. cbn [map concat] in *. unfold swp, o_n.
+        destruct (Nat.lt_ge_cases j (length (o_nodes y))) as [Hy1|Hy1].
+        * rewrite nth_error_app1 in E by exact Hy1.
+          repeat match goal with |- context [N.ltb ?a ?b] => destruct (N.ltb_spec a b); try lia end.
+          rewrite nth_error_app2 by lia. rewrite nth_error_app1 by lia. rewrite <- E. f_equal. lia.
+        * rewrite nth_error_app2 in E by exact Hy1. destruct (Nat.lt_ge_cases (j - length (o_nodes y)) (length (o_nodes x))) as [Hx1|Hx1].
+          -- rewrite nth_error_app1 in E by exact Hx1.
+             repeat match goal with |- context [N.ltb ?a ?b] => destruct (N.ltb_spec a b); try lia end.
+             rewrite nth_error_app1 by lia. rewrite <- E. f_equal. lia.
+          -- rewrite nth_error_app2 in E by exact Hx1.
+             repeat match goal with |- context [N.ltb ?a ?b] => destruct (N.ltb_spec a b); try lia end.
+             rewrite nth_error_app2 by lia. rewrite nth_error_app2 by lia. rewrite <- E. f_equal. lia.
     - assert (Hok2 : Forall (oseg_ok n0) l2) by (apply Forall_forall; intros o Ho; rewrite Forall_forall in Hok; apply Hok; eapply Permutation_in; [apply Permutation_sym, HP1|exact Ho]).
-      destruct (IH1 Hok g Hg) as (r1 & r1' & I1 & I1' & F1 & R1 & PE1 & PA1). destruct (IH2 Hok2 g Hg) as (r2 & r2' & I2 & I2' & F2 & R2 & PE2 & PA2).
+      destruct (IH1 Hok g Hg) as (r1 & r1' & I1 & I1' & F1 & R1 & PE1 & PA1 & PN1). destruct (IH2 Hok2 g Hg) as (r2 & r2' & I2 & I2' & F2 & R2 & PE2 & PA2 & PN2).
       pose proof (total_perm _ _ HP1) as T12. rewrite <- T12 in F2, R2.
       exists (fun i => r2 (r1 i)), (fun i => r1' (r2' i)). split; [intros i; rewrite I2, I1; reflexivity|]. split; [intros i; rewrite I1', I2'; reflexivity|].
-      split; [|split; [|split]].
+      split; [|split; [|split; [|split]]].
       + intros i Hi. destruct (F1 i Hi) as [A B]. destruct (F2 i Hi) as [C D]. rewrite A, C, D, B. auto.
       + intros i H1 H2. destruct (R1 i H1 H2) as [[A1 A2] [B1 B2]]. destruct (R2 i H1 H2) as [[C1 C2] [D1 D2]].
         destruct (R2 (r1 i) A1 A2) as [[E1 E2] _]. destruct (R1 (r2' i) D1 D2) as [_ [G1 G2]]. lia.
@@ -299,5 +323,57 @@ Section Ops.
       + eapply perm_trans; [|exact PA2]. assert (E : map (are (fun i => r2 (r1 i))) (layA n0 g l1) = map (are r2) (map (are r1) (layA n0 g l1))).
         { rewrite map_map. apply map_ext. intros o. symmetry. apply are_comp. }
         rewrite E. apply Permutation_map, PA1.
+      + intros j nd E. specialize (PN1 _ _ E). assert (Hj : (j < length (layN l1))%nat) by (apply nth_error_Some; congruence).
+        assert (Hlen : forall l, N.of_nat (length (layN l)) = total l).
+        { clear. unfold layN. induction l as [|o l IH]; [reflexivity|]. cbn [map concat total fold_right]. rewrite app_length. fold (total l). unfold o_n. lia. }
+        destruct (R1 (g + N.of_nat j) ltac:(lia) ltac:(rewrite <- Hlen; lia)) as [[A B] _].
+        specialize (PN2 _ _ PN1). replace (g + N.of_nat (N.to_nat (r1 (g + N.of_nat j) - g))) with (r1 (g + N.of_nat j)) in PN2 by lia. exact PN2.
   Qed.
 End Ops.
+
+(* ================= the graph before evaluation: shared nodes, then the blocks' fresh nodes ================= *)
+(* the initial graph only mentions its own nodes (edge sinks, graph-node references inside attribute values) *)
+Definition gclosed (n0 : N) (g0 : graph) : Prop :=
+  Forall (fun nd => Forall (fun kv => vall (fun i => i < n0) (snd kv)) (g_attrs nd) /\ edges_wf (g_edges nd) /\
+                    Forall (fun e => fst e < n0 /\ Forall (fun kv => vall (fun i => i < n0) (snd kv)) (snd e)) (g_edges nd)) g0.
+Definition nplain (nd : gnode) : Prop := g_edges nd = [] /\ amap_plain (g_attrs nd).
+
+Lemma amren_fix (D : N -> Prop) r m : Forall (fun kv => vall D (snd kv)) m -> (forall i, D i -> r i = i) -> amren r m = m.
+Proof.
+  intros Hm Hr. unfold amren. rewrite <- (map_id m) at 2. apply map_ext_in. intros [k v] Hin. cbn [fst snd]. f_equal.
+  rewrite Forall_forall in Hm. apply (vren_fix D r v Hr (Hm _ Hin)).
+Qed.
+
+Lemma base_giso r g0 ns ns' : inj r -> (forall i, i < N.of_nat (length g0) -> r i = i) -> gclosed (N.of_nat (length g0)) g0 ->
+  Forall nplain ns -> length ns = length ns' ->
+  (forall j nd, nth_error ns j = Some nd -> nth_error ns' (N.to_nat (r (N.of_nat (length g0) + N.of_nat j) - N.of_nat (length g0))) = Some nd) ->
+  (forall i, N.of_nat (length g0) <= i -> i < N.of_nat (length g0) + N.of_nat (length ns) -> N.of_nat (length g0) <= r i) ->
+  giso r (g0 ++ ns) (g0 ++ ns').
+Proof.
+  intros Hinj Hfix Hcl Hpl Hlen Hn Hrg. split; [rewrite !app_length, Hlen; reflexivity|]. intros i nd Ei.
+  destruct (N.lt_ge_cases i (N.of_nat (length g0))) as [Hlt|Hge].
+  - rewrite nth_error_app1 in Ei by lia. rewrite (Hfix i Hlt). exists nd. split; [rewrite nth_error_app1 by lia; exact Ei|].
+    unfold gclosed in Hcl. rewrite Forall_forall in Hcl. destruct (Hcl nd (nth_error_In _ _ Ei)) as (Ha & Hw & He). split.
+    + symmetry. apply (amren_fix (fun i => i < N.of_nat (length g0))); assumption.
+    + split; [exact Hw|]. split; [exact Hw|]. intros b. destruct (edges_get b (g_edges nd)) as [m|] eqn:Eb; cbn [option_map].
+      * pose proof (edges_get_In _ _ _ Eb) as Hin. unfold sinks in Hin. apply in_map_iff in Hin as ([s a] & Hs & Hin). cbn [fst] in Hs. subst s.
+        rewrite Forall_forall in He. destruct (He _ Hin) as [Hb _]. cbn [fst] in Hb. rewrite (Hfix b Hb), Eb. f_equal. symmetry.
+        assert (Hin2 : In (b, m) (g_edges nd)).
+        { clear -Eb. induction (g_edges nd) as [|[s a'] es IH]; cbn [edges_get] in Eb; [discriminate|]. destruct (N.compare_spec b s) as [->|_|_]; [inversion Eb; left; reflexivity|discriminate|right; auto]. }
+        destruct (He _ Hin2) as [_ Hm]. cbn [snd] in Hm. apply (amren_fix (fun i => i < N.of_nat (length g0))); assumption.
+      * destruct (edges_get (r b) (g_edges nd)) as [m'|] eqn:Erb; [|reflexivity]. exfalso.
+        pose proof (edges_get_In _ _ _ Erb) as Hin. unfold sinks in Hin. apply in_map_iff in Hin as ([s a] & Hs & Hin). cbn [fst] in Hs. subst s.
+        rewrite Forall_forall in He. destruct (He _ Hin) as [Hb _]. cbn [fst] in Hb. pose proof (Hfix (r b) Hb) as E. apply Hinj in E. rewrite E in Erb. congruence.
+  - rewrite nth_error_app2 in Ei by lia. specialize (Hn _ _ Ei). assert (Hj : (N.to_nat i - length g0 < length ns)%nat) by (apply nth_error_Some; congruence).
+    replace (N.of_nat (length g0) + N.of_nat (N.to_nat i - length g0)) with i in Hn by lia.
+    pose proof (Hrg i Hge ltac:(lia)) as Hr. exists nd. split; [rewrite nth_error_app2 by lia; rewrite <- Hn; f_equal; lia|].
+    rewrite Forall_forall in Hpl. destruct (Hpl nd (nth_error_In _ _ Ei)) as [He Ha]. split.
+    + symmetry. apply (amren_fix noid); [exact Ha|intros j []].
+    + rewrite He. split; [constructor|]. split; [constructor|]. intros b. reflexivity.
+Qed.
+Lemma base_sorted n0 g0 ns : gclosed n0 g0 -> Forall nplain ns -> edges_sorted (g0 ++ ns).
+Proof.
+  intros Hcl Hpl. apply Forall_app. split.
+  - eapply Forall_impl; [|exact Hcl]. intros nd (_ & H & _). exact H.
+  - eapply Forall_impl; [|exact Hpl]. intros nd [H _]. rewrite H. constructor.
+Qed.
